@@ -108,3 +108,17 @@ Theorem C18_udp_port_model_is_the_source :
   (forall rs ls o a b, g_NewUDPSerialPort rs ls o a b = Val (udp_new rs ls o a b)).
 Proof. exact udp_port_agrees. Qed.
 Print Assumptions C18_udp_port_model_is_the_source.
+
+(* and across the two layers: whatever an emulator has written to its port after any history of events - acknowledges and
+   transmitted frames, all well-formed by C18_port_only_wf, hence of at most 2055 bytes - arrives at the port facing it
+   whole, unchanged and in order when each is read with 4096 bytes of room *)
+Require Import Proofs.UdpFrames.
+Theorem C18_everything_the_emulator_writes_arrives_over_udp : forall es s t0 t1,
+  Forall wf_frame (eport s) -> Forall wf_bytes (eport (snd (erun s es))) ->
+  let fs := eport (snd (erun s es)) in
+  urun t0 t1 unet0 (writes false fs ++ reads true 4096 (length fs)) =
+  map (fun p => UWrote (Z.of_nat (length p)) None) fs ++ map (fun p => UGot p None) fs.
+Proof.
+  intros es s t0 t1 Hw Hb. apply (frames_arrive_over_udp t0 t1 false); [exact Hb | exact (C18_port_only_wf es s Hw)].
+Qed.
+Print Assumptions C18_everything_the_emulator_writes_arrives_over_udp.
